@@ -377,6 +377,33 @@ def rule_label_writes(m, coherent_store=False):
 
 
 # ------------------------------------------------------------------------------------------------
+def rule_nolabel_store(m):
+    """F-LSET.none: the label store of an unlabelled graph stays empty."""
+    res = RuleResult('F-LSET.none', 'in the instantiations without labels (NoLabel) nothing writes a label store - of this object or '
+                                    'of a graph being built - except through the label helper, whose unlabelled variant stores nothing: '
+                                    'operator== compares the stores, so an unlabelled graph with entries differs from the same graph '
+                                    'built with addEdge')
+    for f in m.fns:
+        if f.record not in (LDG, LUG) or f.recordargs != 'BaseGraph::NoLabel' or f.is_lambda:
+            continue
+        if f.unit.decl(f.decl).get('special'):
+            continue
+        ev = events_of(m, f)
+        res.sites += 1
+        w = [e for e in ev.events if e.kind in ('L.set', 'L.addAssign', 'L.subAssign', 'L.ref')]
+        if f.tname in m.label_helpers()[:1]:
+            w = []
+        if w:
+            res.fail(Finding('F-LSET.none', f.display(), 'label store of an unlabelled graph', f.nloc(w[0].node),
+                             '`%s` writes a label-store entry in the instantiation without labels: graphs that went through this '
+                             'function carry NoLabel entries and compare unequal to the same graph built edge by edge'
+                             % f.expr_text(w[0].node)[:60]))
+        else:
+            res.ok(dict(function=f.display()) if len(res.samples) < 4 else None, fn=f.display())
+    res.require_sites(20, 'functions of the unlabelled instantiations')
+    return res
+
+
 def rule_ordered_edge(m):
     res = RuleResult('F-ORD.v', 'orderedEdge(i,j) returns (min(i,j), max(i,j)) - evaluated over the three orderings')
     for f in m.by_tname.get(m.ordered_edge(), []):
@@ -1970,6 +1997,32 @@ def rule_forwarding(m):
                 res.fail(Finding('F-FWD', f.display(), 'reciprocal pair of insertions', f.where(),
                                  'a reciprocal insertion must consist of one insertion of (a,b) and one of (b,a) (found %d ordered, '
                                  '%d reversed calls)' % (len(ordered), len(reversed_))))
+    # ---- flags are handed on: a function that receives a boolean option and calls a library function that has an option of
+    #      the same name does not leave it to the callee's default
+    for f in m.fns:
+        if f.is_lambda or not (f.record in GRAPH_CLASSES or (f.record is None and f.tname.startswith(NS))):
+            continue
+        flags = {f.pnames[ix]: ('var', pd) for ix, pd in enumerate(f.params)
+                 if ix < len(f.cptypes) and f.cptypes[ix] == 'bool' and ix < len(f.pnames) and f.pnames[ix]}
+        if not flags:
+            continue
+        tt = Terms(f)
+        for nid, g in m.callees(f):
+            n = f.nodes[nid]
+            if n['k'] not in ('CXXMemberCallExpr', 'CallExpr') or 'args' not in n or g.is_lambda:
+                continue
+            for ix, pn in enumerate(g.pnames):
+                if pn in flags and ix < len(g.cptypes) and g.cptypes[ix] == 'bool' and ix < len(n['args']):
+                    res.sites += 1
+                    an = f.nodes[n['args'][ix]]
+                    if an['k'] == 'CXXDefaultArgExpr':
+                        res.fail(Finding('F-FWD', f.display(), 'option %s not handed on to %s' % (pn, g.name), f.nloc(nid),
+                                         '`%s` is called without the option `%s` that %s itself received: the callee falls back to '
+                                         'its default, so the caller\'s `%s = %s` is honoured for part of the operation only'
+                                         % (f.expr_text(nid)[:60], pn, f.display(), pn, 'true/false')))
+                    else:
+                        res.ok(dict(function=f.display(), call=f.expr_text(nid)[:60], option=pn, passed=f.expr_text(n['args'][ix])[:20])
+                               if len(res.samples) < 14 else None, fn=f.display())
     res.require_sites(20, 'forwarding call sites')
     return res
 
